@@ -108,7 +108,11 @@ class SpecMixin(object):
           i = cx.heap.len(base.t) + i
         return from_u(cx.heap.item(base.t, i), base.ty.elem, cx)
       if k == 'obj':
-        return self.pure_app('getitem', [base, idx], ANY, cx)
+        path = '%s.__getitem__' % base.ty.name
+        rt = self.pure_ret_type(path)
+        if rt is None:
+          raise SpecError('%s is not declared pure' % path)
+        return self.pure_app(path, [base, idx], rt, cx)
     raise SpecError('cannot subscript %r' % (base,))
 
   def sv_UnaryOp(self, n, cx):
@@ -512,6 +516,18 @@ class SpecMixin(object):
       conj.append(ForAllT([e], h1.dom(now.t, e) == h0.dom(now.t, e)))
       conj.append(ForAllT([e], z3.Implies(h0.dom(now.t, e), h1.val(now.t, e) == h0.val(now.t, e))))
     return VBool(z3.And(conj))
+
+  def spec_fn_distinct(self, n, cx):
+    """distinct(seq): no element occurs twice."""
+    v = self.sv(n.args[0], cx)
+    if isinstance(v, VTuple):
+      us = [to_u(x, cx) for x in v.items]
+      return VBool(z3.Distinct(*us) if len(us) > 1 else z3.BoolVal(True))
+    h = cx.heap
+    i = z3.Const(fresh_name('di'), I)
+    j = z3.Const(fresh_name('dj'), I)
+    return VBool(ForAllT([i, j], z3.Implies(z3.And(i >= 0, i < j, j < h.len(v.t)),
+                                            h.item(v.t, i) != h.item(v.t, j))))
 
   def spec_fn_setvalue(self, n, cx):
     v = self.sv(n.args[0], cx)
